@@ -567,3 +567,53 @@ func TestVerif_C14_MixedSmallGrid(t *testing.T) {
 	}
 	rec.Sample("grid", map[string]interface{}{"g,s": fmt.Sprintf("0..%d", lim-1), "P": pts})
 }
+
+// Every scalar n+delta for small delta (and 2n+delta, 16n+delta as 33-byte scalars for the variable-point routine): as multiples they
+// are [delta]G resp. [delta]P, as bit patterns they drive the fixed schedules into their exceptional additions.
+func TestVerif_C14_NearOrderSweep(t *testing.T) {
+	rec := stats.Get("C14", "near-order-sweep")
+	rec.Exhaustive(true)
+	hi := 1024
+	if vt.Thorough() {
+		hi = 8192
+	}
+	rec.Rule(fmt.Sprintf("complete enumeration: k = n+delta, delta in -64..%d: ScalarBaseMult(k), ScalarMult(P,k) for P in {G, [0x1234567]G}, ScalarMixedMult_Unsafe(k,P,k); and 33-byte k = 2n+delta, 16n+delta for ScalarMult. Oracle sm2ref. Every case non-trivial; distinct by (routine, k).", hi-1))
+	t.Cleanup(stats.FlushAll)
+	si, sn := vt.Shard()
+	mP := sm2ref.Mul(big.NewInt(0x1234567), sm2ref.G)
+	pts := []sm2ref.Point{sm2ref.G, mP}
+	for d := -64; d < hi; d++ {
+		if (d+64)%sn != si {
+			continue
+		}
+		for _, base := range []*big.Int{gen.N, new(big.Int).Lsh(gen.N, 1), new(big.Int).Lsh(gen.N, 4)} {
+			kv := new(big.Int).Add(base, big.NewInt(int64(d)))
+			k := kv.Bytes()
+			ln := 32
+			if len(k) > 32 {
+				ln = 33
+			}
+			k = append(make([]byte, ln-len(k)), k...)
+			if ln == 32 {
+				got, err := ScalarBaseMult(k)
+				rec.Enumerated(1, "base")
+				c14Compare(t, rec, "C14:near-order:base", "ScalarBaseMult", got, err, sm2ref.MulBytes(k, sm2ref.G), fmt.Sprintf("k=%x (n%+d)", k, d))
+			}
+			for _, P := range pts {
+				ip := c14FromRef(t, P)
+				got, err := ScalarMult(ip, k)
+				rec.Enumerated(1, "variable")
+				c14Compare(t, rec, "C14:near-order:variable", "ScalarMult", got, err, sm2ref.MulBytes(k, P), fmt.Sprintf("k=%x P=%x", k, sm2ref.Encode(P)))
+				if ln == 32 {
+					got, err = ScalarMixedMult_Unsafe(k, ip, k)
+					rec.Enumerated(1, "mixed")
+					c14Compare(t, rec, "C14:near-order:mixed", "ScalarMixedMult_Unsafe", got, err, sm2ref.Add(sm2ref.MulBytes(k, sm2ref.G), sm2ref.MulBytes(k, P)), fmt.Sprintf("g=s=%x P=%x", k, sm2ref.Encode(P)))
+				}
+			}
+		}
+		if t.Failed() {
+			return
+		}
+	}
+	rec.Sample("near-order", map[string]interface{}{"deltas": fmt.Sprintf("-64..%d", hi-1)})
+}
